@@ -39,6 +39,7 @@ type origin struct {
 	faults      []string
 	ctype       string // media type announced for valid documents
 	notModified int
+	hung        bool // a poll of this endpoint got no answer any more (it hangs until the provider stops)
 	etags       bool   // the server sends entity tags and honours If-None-Match (nginx, object stores, most frameworks)
 }
 
@@ -212,6 +213,12 @@ func httpProvSim(r *simcore.Run) {
 		}
 		nSteps := 2 + s.Draw(10, "steps")
 		faultRuns := s.Draw(3, "faulty-run") != 0
+		// one of two endpoints stops answering at some step (the connection stays open, no timeout is configured): the
+		// other endpoint is a source that still exists and has to be followed
+		hangAt := -1
+		if nEP == 2 && s.Draw(5, "an-endpoint-hangs") == 4 {
+			hangAt = s.Draw(nSteps, "hangs-at-step")
+		}
 		nontrivial := false
 		for step := 0; step < nSteps && !r.Failed(); step++ {
 			if faultRuns {
@@ -247,6 +254,12 @@ func httpProvSim(r *simcore.Run) {
 				d = append(d, fmt.Sprintf("%s=%s/v%d/max-age=%d", o.host, o.kind, o.version, o.maxAge))
 			}
 			drawFaults()
+			if step == hangAt && !origins[0].hung {
+				stepFault[origins[0].host] = simnet.Fault{Kind: simnet.Delay, D: 1000 * interval}
+				origins[0].hung = true
+				r.Count("fault:endpoint-hangs", 1)
+				r.Logf("step %d: %s stops answering", step, origins[0].host)
+			}
 			r.Logf("step %d +%s: %v rejecting=%v fault-rate=%d%%", step, time.Since(epoch).Round(time.Second), d, rec.Rejecting, faultPct)
 			time.Sleep(interval)
 			if !check(fmt.Sprintf("after step %d", step)) {
@@ -271,6 +284,9 @@ func httpProvSim(r *simcore.Run) {
 		time.Sleep(3 * interval)
 		synctest.Wait()
 		for _, o := range origins {
+			if o.hung {
+				continue // its last poll is still waiting for the answer
+			}
 			want := ""
 			if o.kind == "valid" {
 				want = provsim.ContentIDOfYAML(o.doc())
